@@ -6,12 +6,16 @@ PROP = "C07"
 LEVEL = "other"
 H = "vf.contracts.c_cpu."
 N = "a816.parse.nodes."
-FUNCTIONS = [N + c + m for c in ("ByteNode", "WordNode", "LongNode", "PointerNode") for m in (".emit", ".pc_after")]
+FUNCTIONS = [N + c + m for c in ("ByteNode", "WordNode", "LongNode", "PointerNode") for m in (".emit", ".pc_after")] + \
+            ["a816.parse.codegen.generate_db", "a816.parse.codegen.generate_dw", "a816.parse.codegen.generate_dl"]
 FUNCTIONS += [N + "BinaryNode.__init__", N + "BinaryNode.emit", N + "BinaryNode.pc_after", "a816.parse.codegen.generate_db", "a816.parse.codegen.generate_dw", "a816.parse.codegen.generate_dl"]
 MIN_OBLIGATIONS = 8
 EXPLANATION = ("data_node_contract runs the real ByteNode/WordNode/LongNode/PointerNode emit and pc_after on a symbolic value (every integer, "
                "negative and over-wide included) and a symbolic in-window LoROM address; little-endian truncation and the layout size are "
-               "VCs discharged by z3.  Text -> node list (.db a, b, c / .ascii / .incbin / .pointer) is checked by the bounded stand-in.")
+               "VCs discharged by z3.  Expression lists of ARBITRARY length: the loops of generate_db / generate_dw / generate_dl are cut with a per-iteration contract -- for the "
+               "arbitrary expression of the list exactly one node is appended, of the directive's width class, evaluating exactly that expression (hence one value per "
+               "expression, in list order); the parser side (parse_expression_list_inner, DataNode's copy loop) terminates and consumes the list (C15).  "
+               "Text -> tokens, .ascii and .incbin (file system) are checked by the bounded stand-in.")
 TRUSTED = ["vf/specs/le.py"]
 ASSUMPTIONS = ["eval_expression modelled as a function of (expression, environment) (vf/specs/stubs.py); verified separately in C06",
                "Address.__add__ used through its contract (proved in C04)", "struct.pack model",
@@ -69,10 +73,14 @@ def cases(E):
                    overrides={"a816.parse.nodes.open": "vf.specs.stubs.open_model"}))
     cs.append(Case(H + "binary_node_contract", "any content, any in-window LoROM address", shape_bin,
                    target=[N + "BinaryNode.emit", N + "BinaryNode.pc_after"]))
+    from vf.props import expansion
+    cs += expansion.c07_cases(E)
     return cs
 
 
-OPTIONAL_CHECKS = {"generate_data_contract": ["node_kind", "in_order"]}
+OPTIONAL_CHECKS = {"generate_data_contract": ["node_kind", "in_order"],
+                   "generator_contract": ["enclosing_scope_current_again", "scope_cursor_consistent", "scopes_only_appended", "returns_a_list"]}
+QUICK_MUTANTS = 8
 
 
 def bounded(tier, seed):
@@ -82,7 +90,10 @@ def bounded(tier, seed):
 
 def mutants():
     from vf.pyvc.mutate import textual
+    G_ = "a816.parse.codegen."
     return [
+        Mutant("generate_dw:byte-nodes", G_ + "generate_dw", textual("code.append(WordNode(", "code.append(ByteNode("), only_harness="generator_contract"),
+        Mutant("generate_db:value-emitted-twice", G_ + "generate_db", textual("        code.append(ByteNode(ExpressionNode(expr, resolver, file_info)))", "        code.append(ByteNode(ExpressionNode(expr, resolver, file_info)))\n        code.append(ByteNode(ExpressionNode(expr, resolver, file_info)))"), only_harness="generator_contract"),
         Mutant("LongNode.emit:high-byte-unmasked", N + "LongNode.emit", textual("value >> 16 & 255", "value >> 16")),
         Mutant("WordNode.emit:big-endian", N + "WordNode.emit", textual("'<H'", "'>H'")),
         Mutant("ByteNode.emit:abs", N + "ByteNode.emit", textual("self.value_node.get_value() & 255", "abs(self.value_node.get_value()) & 255")),
